@@ -145,7 +145,8 @@ func runC19(c *Ctx) {
 			G("Key(VoteA.BlockID) < Key(VoteB.BlockID)", Cmp(`^call:strings\.Compare\(`+keyA+`, `+keyB+`\)$`, "<", `^const:0$`)))
 	}
 	if fn := c.Fn("types", "", "NewDuplicateVoteEvidence"); fn != nil {
-		n := len(findInstrs(fn, CallTo(`^strings\.Compare$`, `^strings\.Compare\(call:\(\*types\.BlockID\)\.Key\(&vote1\.BlockID\), call:\(\*types\.BlockID\)\.Key\(&vote2\.BlockID\)\)$`)))
+		// the two keys compared, in either order (Compare(a, b) == -1 and Compare(b, a) == 1 say the same)
+		n := len(findInstrs(fn, CallTo(`^strings\.Compare$`, `^strings\.Compare\(call:\(\*types\.BlockID\)\.Key\(&vote(1|2)\.BlockID\), call:\(\*types\.BlockID\)\.Key\(&vote(1|2)\.BlockID\)\)$`)))
 		c.Check("S", fnName(fn)+"/orders the votes by the same block-id key as ValidateBasic", n == 1, fn.Pos(), n, "")
 		got := map[string]string{}
 		for _, in := range findInstrs(fn, StoreTo(`^&alloc:complit:types\.DuplicateVoteEvidence\.`)) {
